@@ -124,10 +124,68 @@ def history_mode(job):
     print(json.dumps({"history": [out[i] for i in range(len(tab))]}), flush=True)
 
 
+def shared_objects_mode(job):
+    """what a pipeline returns depends on the values of its inputs and on its configuration only - not on which dataset
+    OBJECTS were seen before in the process: (a) two pipelines that differ by the band they match on share one multiband
+    pair, on different machines, alternately; (b) the caller overwrites the samples of the right image in place between
+    two runs. Every result is compared with the same pipeline on equal-valued deep copies."""
+    from harness.impl import pipelines as pl
+
+    for i in range(job["n_cases"]):
+        rng = random.Random(job["seed"] * 104729 + i)
+        rows, cols = rng.choice([(10, 14), (12, 16), (9, 13)])
+        lo = rng.choice([-3, -2, -1])
+        hi = lo + rng.choice([2, 3])
+        subpix = rng.choice([2, 4, 2, 1])
+        meth = rng.choice(["sad", "ssd", "zncc", "census"])
+        mc = {"matching_cost_method": meth, "window_size": 3, "subpix": subpix}
+        tail = {"disparity": {"disparity_method": "wta", "invalid_disparity": -9999}}
+        if rng.random() < 0.5:
+            tail["refinement"] = {"refinement_method": "vfit"}
+        if rng.random() < 0.4:
+            tail["validation"] = {"validation_method": "cross_checking_accurate"}
+        rec = {"case": i, "mode": "shared_objects", "matching_cost": mc, "tail": list(tail)}
+        try:
+            # (a) band switch on one multiband pair
+            left, right = pl.make_pair(rng, rows, cols, lo, hi, bands=["r", "g"])
+            # the bands must really differ (make_pair derives them from one image): scramble the second one
+            nprng = np.random.default_rng(rng.randrange(1 << 30))
+            for ds in (left, right):
+                ds["im"].data[1] = nprng.integers(0, 40, size=ds["im"].data[1].shape).astype(np.float32)
+            pg = {"matching_cost": dict(mc, band="g"), **tail}
+            pr = {"matching_cost": dict(mc, band="r"), **tail}
+
+            def fresh(pipe, l, r):
+                a, b, _ = pl.run_pipeline(l.copy(deep=True), r.copy(deep=True), pipe)
+                return products_hash(a, b)
+
+            ref_g, ref_r = fresh(pg, left, right), fresh(pr, left, right)
+            seq = []
+            for pipe, ref in ((pg, ref_g), (pr, ref_r), (pg, ref_g), (pr, ref_r)):
+                a, b, _ = pl.run_pipeline(left, right, pipe)
+                seq.append(products_hash(a, b) == ref)
+            rec["band_switch_same_objects"] = all(seq)
+            # (b) samples overwritten in place between two runs
+            left1, right1 = pl.make_pair(rng, rows, cols, lo, hi, masks=rng.random() < 0.3)
+            p1 = {"matching_cost": dict(mc), **tail}
+            a, b, m = pl.run_pipeline(left1, right1, p1)
+            first = products_hash(a, b) == fresh(p1, left1, right1)
+            right1["im"].data[:] = np.roll(right1["im"].data, 1, axis=1) + nprng.integers(0, 3, size=right1["im"].data.shape).astype(np.float32)
+            left1["im"].data[:] = left1["im"].data[::-1].copy()
+            a, b, _ = pl.run_pipeline(left1, right1, p1)
+            rec["inplace_update_seen"] = first and products_hash(a, b) == fresh(p1, left1, right1)
+        except ZeroDivisionError:
+            rec["skipped"] = "ZeroDivisionError"
+        print(json.dumps(rec), flush=True)
+
+
 def main():
     job = json.loads(sys.stdin.readline())
     if job.get("mode") == "history":
         history_mode(job)
+        return
+    if job.get("mode") == "shared_objects":
+        shared_objects_mode(job)
         return
     from harness.impl import pipelines as pl
     import pandora
